@@ -25,6 +25,7 @@ CONSTANTS
   MaxSteps = 6
   RationalOnly = TRUE
   Twins = FALSE
+  SetOnce = TRUE
   Chain = FALSE
   NeedDt = FALSE
   BindLeaves = TRUE
